@@ -112,7 +112,7 @@ struct Prog
 	Prog(Args const& a_, Rng& r, bool e, int b, std::vector<bool> rt, Alphabet const& al_)
 		: a(a_), rng(r), exh(e), budget(b), nres(int(rt.size())), res_tcp(std::move(rt)), al(al_) {}
 
-	void tr(std::string const& s) { trace += s; trace += ' '; th = hcomb(th, hstr(s)); }
+	void tr(std::string const& s) { trace += s; trace += ' '; th = hcomb(th, hstr(s)); VLOG("  step: %s", s.c_str()); }
 	void viol(std::string const& key, std::string const& detail)
 	{
 		R().cur_desc = trace;
